@@ -206,6 +206,8 @@ def classify(orig, out, config, what, detail=None):
     for r in ('anf-assign-target-order', 'anf-dict-order', 'anf-starred-unpack-order', 'anf-sibling-order'):
         if r in m.reasons and what == 'order':
             return r
+    if what == 'order' and G.assign_target_walrus(orig):
+        return 'anf-assign-target-order'
     # `y + (y := a())`: the read of y stays in place, the hoisted assignment expression runs before it
     if what == 'order' and G.read_before_walrus(orig):
         return 'anf-name-read-before-walrus'
